@@ -357,6 +357,15 @@ def _default_matches_schema(default: Any, schema: Schema) -> bool:
     return True
 
 
+def _keep_null_namespace(parsed_schema, fullname, enclosing_namespace):
+    # A named type in the null namespace that is nested in a namespaced type
+    # must say so explicitly in the output, otherwise parsing the output again
+    # (container headers, parsed non-record schemas) would move it into the
+    # enclosing namespace
+    if enclosing_namespace and "." not in fullname:
+        parsed_schema["namespace"] = ""
+
+
 def _parse_schema(
     schema: Schema,
     namespace: str,
@@ -501,6 +510,7 @@ def _parse_schema(
             named_schemas[fullname] = parsed_schema
 
             parsed_schema["name"] = fullname
+            _keep_null_namespace(parsed_schema, fullname, namespace)
             parsed_schema["symbols"] = schema["symbols"]
 
         elif schema_type == "fixed":
@@ -515,14 +525,17 @@ def _parse_schema(
             named_schemas[fullname] = parsed_schema
 
             parsed_schema["name"] = fullname
+            _keep_null_namespace(parsed_schema, fullname, namespace)
             parsed_schema["size"] = schema["size"]
 
         elif schema_type == "record" or schema_type == "error":
             # records
+            enclosing_namespace = namespace
             namespace, fullname = schema_name(schema, namespace)
             if fullname in names:
                 raise SchemaParseException(f"redefined named type: {fullname}")
             names.add(fullname)
+            _keep_null_namespace(parsed_schema, fullname, enclosing_namespace)
 
             if default is not NO_DEFAULT and not isinstance(default, dict):
                 _raise_default_value_error(default, schema_type, ignore_default_error)
